@@ -389,7 +389,7 @@ S(id="RG.intake.native", props=["C10"], spec="native/rg_intake_enum.c", mode="N"
        "the message is non-empty and the object then refuses to parse")
 S(id="G.history.native", props=["C14", "C15"], spec="native/history_enum.c", mode="N", link=["allocate.c", "hashtab.c", "objstack.c", "vlobject.c", "yaep.c"], harness="main",
   params={"quick": {"LEN": 5}, "thorough": {"LEN": 6}}, timeout=3000,
-  bound="every applicable history of <= 5 (thorough 6) operations over two objects; 10 operations (create, 3 definitions, 2 lookahead settings, 3 parses, free)",
+  bound="every applicable history of <= 5 (thorough 6) operations over two objects; 12 operations (create, 3 definitions, 2 lookahead settings, cost flag, all parses, 3 parses, free)",
   functions=["yaep_create_grammar", "yaep_parse_grammar", "yaep_read_grammar", "yaep_set_lookahead_level", "yaep_parse", "yaep_free_grammar", "yaep_free_tree"],
   what="each call returns what a fresh object with the same definition and settings returns (return codes, yaep_error_code, root, syntax-error calls); no memory error, nothing leaked at the end (ASan/LSan)")
 S(id="OS.string", props=["C19", "C12", "C13"], harness="h_os_add_string", mode="L", canaries=2, enforce=["_OS_add_string_function/os_add_string_c"],
@@ -413,7 +413,7 @@ S(id="RG.tail", props=["C10", "C14"], spec="rgtail.spec.c", harness="h_rg_tail",
        "the code vector is built after the check, and undefined_p is cleared as the last action",
   assumes=["R6: the region is cut from yaep_read_grammar on every run", "debug output of the region is not modelled (printers replaced by empty contracts)"])
 S(id="T.copy.rule", props=["C13", "C12"], spec="symtab.spec.c", harness="h_rule_start", mode="L", canaries=2, enforce=["rule_new_start/rule_start_c"],
-  replace=["_OS_add_string_function/os_add_string_use_c", "_OS_expand_memory/os_expand_use_c"], functions=["rule_new_start"], params={"quick": {"CAP": 32}, "thorough": {"CAP": 256}},
+  replace=["_OS_add_string_function/os_add_string_use_c", "_OS_expand_memory/os_expand_use_c"], functions=["rule_new_start"], params={"quick": {"CAP": 16}, "thorough": {"CAP": 64}}, mem=48, timeout=1500,
   disabled="work in progress",
   what="the rule record is linked into the rule list and its left-hand side's list; the abstract node name is a COPY inside the grammar's rule storage (different object, equal bytes), "
        "its cost is stored (0 without abstract node); the right-hand side starts as an open array holding the NULL end marker")
